@@ -240,10 +240,11 @@ class Ctx:
         print("  mechanism=%s case=%s :: %s" % (mechanism, case_id, rec["message"][:400]), flush=True)
 
     @contextlib.contextmanager
-    def guard(self, case_id, mechanism, allow=()):
+    def guard(self, case_id, mechanism, allow=(), site=False):
         """Run a case; an unexpected exception in a well-formed case is a violation.
 
-        `allow` lists substrings of deliberate library rejections (logged, not violations)."""
+        `allow` lists substrings of deliberate library rejections (logged, not violations).
+        `site`: append the innermost bempp_cl function of the traceback to the mechanism (call-site keyed findings)."""
         try:
             yield
         except Rejected as e:
@@ -256,7 +257,11 @@ class Ctx:
                 self.reject(msg)
                 return
             tb = traceback.format_exc(limit=12)
-            self.violation(mechanism + ":exception:" + type(e).__name__, msg + "\n" + tb, case_id=case_id)
+            where = ""
+            if site:
+                frames = [f for f in traceback.extract_tb(e.__traceback__) if "bempp_cl" in f.filename]
+                where = ":at:" + (frames[-1].name if frames else "outside_bempp_cl")
+            self.violation(mechanism + ":exception:" + type(e).__name__ + where, msg + "\n" + tb, case_id=case_id)
 
     # ------------------------------------------------------------------ sub-workers (sanitizer build, other threading layer, ...)
     def spawn_worker(self, module, name, env_extra=None, extra_args=()):
